@@ -68,22 +68,25 @@ def CSt.child (s : CSt) (j : Nat) : Frontend := s.w.fes.getD j {}
 (`Con.triv`): no constraint of the modelled alphabets has this one. -/
 def Con.trivNe (_c : Con) : Option (Var × Nat) := none
 
+/-- the shortcut of `FullFrontend.check_satisfiability`: no extra constraints and a single constraint of the shape `BVS == BVV` /
+`BVS != BVV` — trivially satisfiable, by the model returned here -/
+def checkSatShortcut (fe : Frontend) (extra : List Con) : Option PModel :=
+  if extra.isEmpty && fe.constraints.length == 1 then
+    match (fe.constraints.headD default).triv, (fe.constraints.headD default).trivNe with
+    | some (v, x, _), _ => some [(v, x)]
+    | none, some (v, x) => some [(v, x)]
+    | none, none => none
+  else none
+
 /-- `check_satisfiability(extra_constraints)` of SolverCompositeChild: SatCacheMixin (reads the cached verdict, does not write it),
-then FullFrontend (a single `BVS == BVV` / `BVS != BVV` constraint is trivially satisfiable: hand a model to `_model_hook`), then
-the backend: `"SAT" if _satisfiable(...) else "UNSAT"` (an `unknown` of Z3 is raised by `z3_solver_sat`) -/
+then FullFrontend (the shortcut: hand the model to `_model_hook`), then the backend: `"SAT" if _satisfiable(...) else "UNSAT"`
+(an `unknown` of Z3 is raised by `z3_solver_sat`) -/
 def childCheckSat (E : Env) (extra : List Con) : M Bool := do
   let fe ← M.getFe
   if fe.cachedSat == some false then pure false
   else if fe.cachedSat == some true && extra.isEmpty then pure true
   else
-    let shortcut : Option PModel :=
-      if extra.isEmpty && fe.constraints.length == 1 then
-        match (fe.constraints.headD default).triv, (fe.constraints.headD default).trivNe with
-        | some (v, x, _), _ => some [(v, x)]
-        | none, some (v, x) => some [(v, x)]
-        | none, none => none
-      else none
-    match shortcut with
+    match checkSatShortcut fe extra with
     | some m => do
         (childOps E).modelHook m
         pure true
